@@ -132,8 +132,12 @@ func inputSteps(src []byte) (steps any, ok bool, nonfinite bool, tooBig bool) {
 	}
 	avExotic = false
 	a, err := avFromNode(&n, 0)
-	if err != nil || avExotic {
+	if err != nil {
 		return nil, false, false, false
+	}
+	if avExotic {
+		// the step sequence cannot be read unambiguously, but whether the input holds a non-finite float can
+		return nil, false, hasNonFinite(a), false
 	}
 	if hasDupKeys(a) {
 		return nil, false, hasNonFinite(a), false
